@@ -476,7 +476,7 @@ THEOREM_SITE = {
     "C06_nonzero_exit_has_diagnostic": ["exit_discipline"], "C06_zero_exit_no_error_nothing_buffered": ["exit_discipline"],
     "C06_run_ends_and_abort_after_diagnostic": ["exit_discipline"], "C06_exit_status_independent_of_buffering": ["exit_discipline"], "C06_every_exit_site_prints": ["exit_discipline"],
     "C06_dag_walks_linear": ["lattice"], "C06_complex_support_nodes_bounded": ["lattice"],
-    "C06_rename_search_terminates": ["use_cycle"], "C06_rename_resolution_terminates": ["use_cycle"], "C06_import_graph_walks_terminate": ["use_cycle"], "C06_no_overflow_scan_buffers": ["scan_buffers"], "C06_no_overflow_open_comment": ["open_comment"],
+    "C06_rename_search_terminates": ["use_cycle"], "C06_rename_resolution_terminates": ["use_cycle"], "C06_rename_guard_kind_is_path": ["use_cycle"], "C06_import_graph_walks_terminate": ["use_cycle"], "C06_no_overflow_scan_buffers": ["scan_buffers"], "C06_no_overflow_open_comment": ["open_comment"],
     "C06_no_overflow_schema_file_name": ["schema_file", "schema_path"], "C06_schema_path_leaf_in_range": ["schema_path"],
     "C06_no_overflow_escape_buffer": ["escape_buffer"], "C06_no_overflow_exprto_python": ["exprto_python"],
     "C06_select_qualifier_terminates": ["selectsearch"], "C06_nesting_bounded": ["deep_left_sum", "stmt_if", "nested_aggr_type"],
@@ -733,6 +733,23 @@ def run(ctx):
                 run_.bad.append((f"exit:{verdict}", b"", None, None, r))
             elif pred != f"status {r['rc']}":
                 disagreements.append(("exit", verdict, t, pred, f"rc={r['rc']} ({r['cls']})"))
+    # a ring of whole-schema USE clauses that is reachable from, but does not contain, the interfaced schema (seed C06-e1)
+    for tag, data, tl, rg, item in G.tail_rings():
+        pred = model.one(f"renametail {tl} {rg}")
+        res = run_.run([(f"boundary:{tag}", data, None, None)], timeout=tmo)
+        for t in R.TOOLS:
+            r = res[(f"boundary:{tag}", t)]
+            ncomp += 1
+            if pred == "returns":
+                if r["cls"] in R.BAD:
+                    disagreements.append(("use_cycle", tag, t, pred, f"{r['cls']} {r['sig']}"))
+                elif item == "missing" and not (r["cls"] == "reject" and "non-existent object" in r["err"] + r["diag"]):
+                    disagreements.append(("use_cycle", tag, t, pred, f"{r['cls']} rc={r['rc']}: {r['diag'][:100]}"))
+                elif item != "missing" and t == "check-express" and r["cls"] != "accept":
+                    disagreements.append(("use_cycle", tag, t, pred, f"{r['cls']} rc={r['rc']}: {r['diag'][:100]}"))
+            elif item in ("missing", "late") and r["cls"] not in R.BAD:
+                # the model's walk visits every successor; the C code returns early when the name is found first ("early", "tail")
+                disagreements.append(("use_cycle", tag, t, pred, f"{r['cls']} rc={r['rc']}"))
     # item-wise interface resolution as a whole: rings and chains of `USE FROM next (x)`
     for n in (1, 2, 3, 10, 60):
         for kind in ("closed", "missing", "declared"):
